@@ -74,6 +74,27 @@ def execute(scenarios, work, jobs, tag='main', module=None):
     return byrun, states, nevents, tp
 
 
+def probe_ops(scenarios, work):
+    """fault-free run of scenarios on the real code to learn how many transport operations each performs"""
+    os.makedirs(work, exist_ok=True)
+    sp = os.path.join(work, 'probe.scen.jsonl')
+    tp = os.path.join(work, 'probe.trace.ndjson')
+    with open(sp, 'w') as f:
+        for sc in scenarios:
+            f.write(json.dumps(sc, separators=(',', ':')) + '\n')
+    R.run_harness(sp, tp, os.path.join(work, 'probe.progress'))
+    counts = {}
+    cur = None
+    for ln in open(tp):
+        e = json.loads(ln)
+        if e['e'] == 'begin':
+            cur = counts.setdefault(e['run'], {'rd': 0, 'wr': 0, 'fl': 0, 'ops': 0})
+        elif e['e'] in ('rd', 'wr', 'fl') and cur is not None:
+            cur[e['e']] += 1
+            cur['ops'] += 1
+    return counts
+
+
 def check_property(a):
     pid = a.prop
     if pid not in LEVEL:
@@ -107,9 +128,15 @@ def _check_property(a, pid, t0, work, viol_dir):
         scenarios = [rp['scenario']]
     else:
         gen = getattr(G, 'gen_' + pid)
-        scenarios = s2i + gen(rng, a.tier)
+        import inspect
+        if 'probe' in inspect.signature(gen).parameters:
+            scenarios = s2i + gen(rng, a.tier, probe=lambda scs: probe_ops(scs, work))
+        else:
+            scenarios = s2i + gen(rng, a.tier)
     R.log('[%s] %d scenarios (%d from TLC behaviours), harness build %.1fs' % (pid, len(scenarios), len(s2i), build_s))
     by_id = {sc['id']: sc for sc in scenarios}
+    if len(by_id) != len(scenarios):
+        raise R.ToolError('duplicate scenario ids in the generated set')
     module = getattr(G, 'MODULE', {}).get(pid)
     byrun, states, nevents, trace_path = execute(scenarios, work, a.jobs, module=module)
 
